@@ -64,7 +64,7 @@ BOUNDS = {
         'shared_pairs_per_case': '1..6'},
     'thorough': {
         'familyML': '10 aliphatic molecules (4-7 heavy atoms) cut into 3-5 beads in every way x every atom-level share assignment x '
-                    '{every level-1 description for OCCN, 4 seeded ones for the others}',
+                    '{every level-1 description for OCCN; for the others a seeded half of the share assignments with 2 seeded level-1 descriptions each}',
         'blockA': 'as quick plus every C N O Cl [N+] [O-] molecule with <= 3 and every C N O molecule with 4 heavy atoms; 3 renderings up to 3 atoms, 2 for 4 atoms',
         'blockB': '43 library molecules x 30 seeded partitions x 6 seeded share subsets',
         'blockC': 'ladder molecules (2-4 bonds between two fragments, some double): every assignment with >= 2 shared atoms',
@@ -206,7 +206,7 @@ def _ml_cases(tier, seed):
                     step = 1 if not quick else (2 if nb == 3 else 12)
                     picks = lvl1[(len(shares) + n) % step::step]
                 else:
-                    picks = rng.sample(lvl1, min(len(lvl1), 1 if quick else 4)) if rng.random() < (0.08 if quick else 1.0) else []
+                    picks = rng.sample(lvl1, min(len(lvl1), 1 if quick else 2)) if rng.random() < (0.08 if quick else 0.5) else []
                 for part1, shares1 in picks:
                     n += 1
                     nblk = max(part1) + 1
